@@ -446,6 +446,7 @@ class ServerOptions(Options):
     httpservers = ()
     unlink_pidfile = False
     unlink_socketfiles = False
+    _environ_expansions_before_read = None
     mood = states.SupervisorStates.RUNNING
 
     def __init__(self):
@@ -590,6 +591,12 @@ class ServerOptions(Options):
         self.parse_warnings = []
         self.parse_infos = []
 
+        # Likewise forget the ENV_ expansions that the previous read took
+        # from its [supervisord] environment= setting.
+        if self._environ_expansions_before_read is not None:
+            self.environ_expansions.clear()
+            self.environ_expansions.update(self._environ_expansions_before_read)
+
         section = self.configroot.supervisord
         need_close = False
         if not hasattr(fp, 'read'):
@@ -662,6 +669,7 @@ class ServerOptions(Options):
         section.environment = dict_of_key_value_pairs(environ_str)
 
         # extend expansions for global from [supervisord] environment definition
+        self._environ_expansions_before_read = dict(self.environ_expansions)
         for k, v in section.environment.items():
             self.environ_expansions['ENV_%s' % k ] = v
 
